@@ -49,7 +49,7 @@ func Checks() map[string]*simcore.Check {
 				Stub: []string{"disk of the importing chain: simdisk.SimKV", "the witness with one element removed (the stateless side's missing-data fault)"},
 			},
 			Perturbed: []string{"trie prefetcher / subfetcher interleaving while the witness is collected (GOMAXPROCS from checks.json)"},
-			Runs:      map[string]int{"quick": 1200, "thorough": 20000},
+			Runs:      map[string]int{"quick": 3200, "thorough": 40000},
 			Gen:       gen34, Decode: decode34, Run: run34, Shrink: shrink34,
 			ProbeNames: []string{"witness-with-ancestor-headers", "fault-outcome-error", "fault-outcome-same-roots"},
 		},
